@@ -85,7 +85,7 @@ Steps(kind) ==
          << T("resolve", TRUE, TRUE), A("socket"), SockNB,
             T("opt", TRUE, ~BUG_ConnectLeak), T("bind", TRUE, ~BUG_ConnectLeak),
             T("refused", TRUE, ~BUG_ConnectLeak), T("unreach", TRUE, ~BUG_ConnectLeak),
-            T("timeout", FALSE, ~BUG_ConnectLeak), T("getsockname", FALSE, ~BUG_ConnectLeak) >>
+            T("timeout", TRUE, ~BUG_ConnectLeak), T("getsockname", FALSE, ~BUG_ConnectLeak) >>
     [] kind = "udp" ->     \* Dial udp -> ConnectUDP
          << T("resolve", TRUE, TRUE), A("socket"), SockNB,
             T("opt", TRUE, ~BUG_ConnectLeak), T("bind", TRUE, ~BUG_ConnectLeak),
@@ -268,7 +268,7 @@ DoClose(o) ==
       lost == Census(tab) \ Census(ef.t)
       foreign == {f \in lost : tab[f] # o}
   IN
-  /\ ob.st = "live" /\ ob.ncl < MaxClose /\ ob.kind # "mir" /\ ob.refs
+  /\ ob.st = "live" /\ ob.ncl < MaxClose /\ ob.refs     \* ("mir": Destroy)
   /\ tab' = ef.t /\ reg' = ef.r
   /\ objs' = [objs EXCEPT ![o] = ef.ob]
   /\ mon' = M!Step(mon, Ev("Close", o, ob.kind, "none", 1, 1, "", 0, Census(tab), Census(ef.t), {}, {}))
